@@ -77,4 +77,53 @@ Proof.
   all: try (destruct uinput; discriminate).
 Qed.
 
+(* ---- what decode_object makes of a tagged list ---------------------------------------------------- *)
+
+Definition nonscalar (v : value) : bool :=
+  match v with PBool _ | PInt _ _ | PFloat _ _ | PStr _ _ => false | _ => true end.
+
+Lemma nonscalar_raised : forall e, nonscalar (raised e) = true.
+Proof. reflexivity. Qed.
+
+Lemma decode_tagged_nonscalar : forall n e, is_tagged e = true -> nonscalar (decode_f orc n e) = true.
+Proof.
+  intros n e He.
+  destruct e as [| | | | | |k items| | | | | | | | | | | | | | | |]; try discriminate He.
+  destruct k; try discriminate He. destruct items as [|code args]; try discriminate He.
+  destruct code; try discriminate He. destruct sub; try discriminate He.
+  destruct n; cbn [decode_f].
+  all: repeat match goal with
+       | |- context [if code_is ?c ?x then _ else _] => destruct (code_is c x)
+       end.
+  all: repeat match goal with
+       | |- context [nth_arg ?i ?a] => destruct (nth_arg i a); cbn [bind]
+       | |- context [o_zone_known orc ?z] => destruct (o_zone_known orc z) as [[|]|]; cbn [bind negb]
+       end.
+  all: try reflexivity.
+  all: repeat match goal with
+       | |- context [match ?x with _ => _ end] =>
+           match type of x with
+           | value => destruct x
+           | list value => destruct x
+           | result value => destruct x
+           | option bool => destruct x
+           | bool => destruct x
+           | (value * list value)%type => destruct x
+           | option value => destruct x
+           end; try reflexivity
+       end.
+Qed.
+
+Lemma encode_list_tuple : forall n k l, encode_f orc n (PTuple l) = encode_f orc n (PList k l).
+Proof. intros n k l. destruct n; reflexivity. Qed.
+
+Lemma set_nonscalar : forall T n d, nonscalar d = true ->
+  exists w, col_set orc T d = Ok w /\ encode_f orc n w = encode_f orc n d.
+Proof.
+  intros T n d Hd.
+  destruct T; destruct d; try discriminate Hd; cbn [col_set numeric_set choicelist_set ref_cleanup reflist_cleanup reflist_pre bool_set py_eq_small];
+    try (eexists; split; reflexivity).
+  all: try (eexists; split; [reflexivity|apply encode_list_tuple]).
+Qed.
+
 End Facts.
